@@ -132,7 +132,9 @@ Section SortProofs.
   Notation fixmain := (fixmain V leb dflt bound).
   Notation fixup := (fixup V leb dflt bound).
   Notation trimedian := (trimedian V leb dflt bound).
-  Notation qsort_inner := (qsort_inner V leb dflt bound base_sort P).
+  Notation qsort_inner_gen := (qsort_inner_gen V leb dflt bound base_sort P).
+  Notation qsort_node := (qsort_node V leb dflt bound P).
+  Notation movepiv := (movepiv V leb dflt bound).
 
   Lemma pmain_perm : forall fuel a b jump pivot lw rw a' l r,
     pmain fuel a b jump pivot lw rw = Some (a', l, r) -> PermA a a'.
@@ -264,80 +266,148 @@ Section SortProofs.
     - inversion H; subst. apply PermA_refl.
   Qed.
 
+  Lemma movepiv_perm : forall fuel a b pivot l rw a' rw',
+    movepiv fuel a b pivot l rw = Some (a', rw') -> PermA a a'.
+  Proof.
+    induction fuel as [|f IH]; intros a b pivot l rw a' rw' H; simpl in H; [discriminate|].
+    destruct (l <? rw).
+    - destruct (eqv V leb (aget a (b + l)) pivot).
+      + destruct (aswap_c a (b + l) (b + (rw - 1))) as [a0|] eqn:Es; [|discriminate].
+        eapply PermA_trans; [eapply aswap_c_perm; exact Es|]. eapply IH; exact H.
+      + eapply IH; exact H.
+    - inversion H; subst. apply PermA_refl.
+  Qed.
+
+  (* the new right wall never exceeds the old one *)
+  Lemma movepiv_le : forall fuel a b pivot l rw a' rw',
+    movepiv fuel a b pivot l rw = Some (a', rw') -> rw' <= rw.
+  Proof.
+    induction fuel as [|f IH]; intros a b pivot l rw a' rw' H; simpl in H; [discriminate|].
+    destruct (N.ltb_spec l rw).
+    - destruct (eqv V leb (aget a (b + l)) pivot).
+      + destruct (aswap_c a (b + l) (b + (rw - 1))) as [a0|]; [|discriminate].
+        apply IH in H. lia.
+      + eapply IH; exact H.
+    - inversion H; subst. lia.
+  Qed.
+
+  Lemma node_perm : forall newrule wfuel a b len a' rw pd,
+    qsort_node newrule wfuel a b len = Some (a', rw, pd) -> PermA a a'.
+  Proof.
+    intros newrule wfuel a b len a' rw pd H. unfold Sort.qsort_node in H.
+    destruct (trimedian a b len) as [a1|] eqn:Et; [|discriminate].
+    destruct (walls wfuel a1 b (p_thresh P len) (aget a1 (b + len / 2)) 0 (len - 1)) as [[[a2 lwall] rwall]|] eqn:Ew; [|discriminate].
+    destruct (fixup a2 b len (aget a1 (b + len / 2)) lwall rwall) as [[a3 rw0]|] eqn:Ef; [|discriminate].
+    assert (P3 : PermA a a3).
+    { eapply PermA_trans; [eapply trimedian_perm; exact Et|].
+      eapply PermA_trans; [eapply walls_perm; exact Ew|]. eapply fixup_perm; exact Ef. }
+    destruct (newrule && (rw0 =? len)).
+    - destruct (movepiv _ a3 b (aget a1 (b + len / 2)) 0 rw0) as [[a4 rw4]|] eqn:Em; [|discriminate].
+      inversion H; subst. eapply PermA_trans; [exact P3|]. eapply movepiv_perm; exact Em.
+    - inversion H; subst. exact P3.
+  Qed.
+
   (* the sort used below the cutoff permutes the allocation when its segment lies inside it *)
   Hypothesis base_sort_perm : forall a b len, b + len <= bound -> PermA a (base_sort a b len).
 
-  (* sort_permutation: whatever the parameters (chunk, thread count, cutoff, threshold), the fuel and the input,
-     a run that returns has only permuted the array *)
-  Theorem qsort_permutation : forall fuel wfuel a b len a',
-    qsort_inner fuel wfuel a b len = Some a' -> PermA a a'.
+  (* sort_permutation: whatever the parameters (chunk, thread count, cutoff, threshold), the rule (current code /
+     code before the pivot-is-maximum fix), the fuel and the input, a run that returns has only permuted the array *)
+  Theorem qsort_permutation : forall newrule fuel wfuel a b len a',
+    qsort_inner_gen newrule fuel wfuel a b len = Some a' -> PermA a a'.
   Proof.
-    induction fuel as [|f IH]; intros wfuel a b len a' H; [discriminate|].
+    intros newrule. induction fuel as [|f IH]; intros wfuel a b len a' H; [discriminate|].
     simpl in H.
     destruct (p_small P len).
     - destruct (N.leb_spec (b + len) bound); [|discriminate]. inversion H; subst. apply base_sort_perm. assumption.
-    - destruct (trimedian a b len) as [a1|] eqn:Et; [|discriminate].
-      destruct (walls wfuel a1 b (p_thresh P len) (aget a1 (b + len / 2)) 0 (len - 1)) as [[[a2 lwall] rwall]|] eqn:Ew; [|discriminate].
-      destruct (fixup a2 b len (aget a1 (b + len / 2)) lwall rwall) as [[a3 rw]|] eqn:Ef; [|discriminate].
-      assert (P3 : PermA a a3).
-      { eapply PermA_trans; [eapply trimedian_perm; exact Et|].
-        eapply PermA_trans; [eapply walls_perm; exact Ew|]. eapply fixup_perm; exact Ef. }
+    - destruct (qsort_node newrule wfuel a b len) as [[[a3 rw] pd]|] eqn:En; [|discriminate].
+      assert (P3 : PermA a a3) by (eapply node_perm; exact En).
       destruct (0 <? rw).
-      + destruct (qsort_inner f wfuel a3 b rw) as [a4|] eqn:E4; [|discriminate].
+      + destruct (qsort_inner_gen newrule f wfuel a3 b rw) as [a4|] eqn:E4; [|discriminate].
         assert (P4 : PermA a a4) by (eapply PermA_trans; [exact P3|eapply IH; exact E4]).
-        destruct ((0 <? len - rw) && (rw <? len)).
+        destruct (negb pd && (0 <? len - rw) && (rw <? len)).
         * eapply PermA_trans; [exact P4|]. eapply IH; exact H.
         * inversion H; subst. exact P4.
-      + destruct ((0 <? len - rw) && (rw <? len)).
+      + destruct (negb pd && (0 <? len - rw) && (rw <? len)).
         * eapply PermA_trans; [exact P3|]. eapply IH; exact H.
         * inversion H; subst. exact P3.
   Qed.
 
-  (* the mechanism of the non-termination: when the tri-median, the partition passes and the fix-up leave the
-     segment as it is and everything is <= pivot (left part = whole segment), the call recurses on itself:
-     no fuel is enough *)
-  Lemma qsort_inner_stuck : forall wfuel a b len lw rw,
-    p_small P len = false ->
-    trimedian a b len = Some a ->
-    walls wfuel a b (p_thresh P len) (aget a (b + len / 2)) 0 (len - 1) = Some (a, lw, rw) ->
-    fixup a b len (aget a (b + len / 2)) lw rw = Some (a, len) ->
-    0 < len ->
-    forall fuel, qsort_inner fuel wfuel a b len = None.
+  (* ------------------------------------------------------------------ termination of the recursion *)
+  (* The recursion of the current code: every recursive call is on a strictly shorter segment as soon as one call
+     of the node (tri-median + partition passes + fix-up + pivot rule) returns with
+       pivots_done = false  ->  0 < rightwall < len      (both parts non-empty: the partition postcondition)
+       pivots_done = true   ->  rightwall < len           (the pivot itself was moved to the end).
+     NodeOK states exactly that for every segment; under it fuel = len + 1 is enough for every input. *)
+  Definition NodeOK (newrule : bool) (wfuel : nat) : Prop :=
+    forall a b len, p_small P len = false -> b + len <= bound ->
+      exists a' rw pd, qsort_node newrule wfuel a b len = Some (a', rw, pd) /\
+                       rw < len /\ (pd = false -> 0 < rw).
+
+  Theorem qsort_terminates_partial : forall newrule wfuel, NodeOK newrule wfuel ->
+    forall fuel a b len, b + len <= bound -> (N.to_nat len < fuel)%nat ->
+    qsort_inner_gen newrule fuel wfuel a b len <> None.
   Proof.
-    intros wfuel a b len lw rw Hs Ht Hw Hf Hl fuel.
+    intros newrule wfuel Hnode.
+    induction fuel as [|f IH]; intros a b len Hb Hf; [lia|].
+    simpl.
+    destruct (p_small P len) eqn:Es.
+    - destruct (N.leb_spec (b + len) bound); [discriminate|lia].
+    - destruct (Hnode a b len Es Hb) as [a3 [rw [pd [En [Hlt Hpos]]]]]. rewrite En.
+      assert (L : forall a0, (if 0 <? rw then qsort_inner_gen newrule f wfuel a0 b rw else Some a0) <> None).
+      { intros a0. destruct (0 <? rw); [|discriminate]. apply IH; lia. }
+      destruct (if 0 <? rw then qsort_inner_gen newrule f wfuel a3 b rw else Some a3) as [a4|] eqn:E4.
+      + destruct (negb pd && (0 <? len - rw) && (rw <? len)) eqn:Ec; [|discriminate].
+        assert (pd = false) by (destruct pd; [discriminate|reflexivity]).
+        specialize (Hpos H). apply IH; lia.
+      + exfalso. exact (L a3 E4).
+  Qed.
+
+  (* the mechanism of the non-termination of the code BEFORE the fix: when the node leaves the segment as it is
+     with everything <= pivot (left part = whole segment), the call recurses on itself: no fuel is enough *)
+  Lemma qsort_old_stuck : forall wfuel a b len,
+    p_small P len = false ->
+    qsort_node false wfuel a b len = Some (a, len, false) ->
+    0 < len ->
+    forall fuel, qsort_inner_gen false fuel wfuel a b len = None.
+  Proof.
+    intros wfuel a b len Hs Hn Hl fuel.
     induction fuel as [|f IH]; [reflexivity|].
-    simpl. rewrite Hs, Ht, Hw, Hf.
+    simpl. rewrite Hs, Hn.
     destruct (N.ltb_spec 0 len) as [_|Hc]; [|lia].
     rewrite IH. reflexivity.
   Qed.
 End SortProofs.
 
-(* ---------------------------------------------------------------------- the refutation of termination *)
+(* ---------------------------------------------------------------------- regression: the code before the fix *)
 (* scaled-down instance of qutil_qsort: cache line 16 bytes (chunk 2), MT_LOOP_CHUNK = 4 (cutoff: len <= 4,
    parallel partition when the gap exceeds 8); elements are integers *)
 Definition id_sort (a : arr Z) (b len : N) : arr Z := a.
-Definition small_qsort (bound : N) (fuel wfuel : nat) (l : list Z) : option (list Z) :=
-  match qsort_inner Z Z.leb 0%Z bound id_sort (qutil_params 16 4) fuel wfuel (of_list Z l) 0 (N.of_nat (length l)) with
+Definition small_qsort (newrule : bool) (bound : N) (fuel wfuel : nat) (l : list Z) : option (list Z) :=
+  match qsort_inner_gen Z Z.leb 0%Z bound id_sort (qutil_params 16 4) newrule fuel wfuel (of_list Z l) 0 (N.of_nat (length l)) with
   | None => None
   | Some a => Some (to_list Z 0%Z a (N.of_nat (length l)))
   end.
 
-(* five equal elements, one more than the cutoff: the pivot is the maximum, the left part is the whole array
-   again, and no amount of fuel is enough *)
-Theorem qsort_const_diverges : forall fuel wfuel, small_qsort 5 fuel wfuel [7; 7; 7; 7; 7]%Z = None.
+(* OLD rule: five equal elements, one more than the cutoff: the pivot is the maximum, the left part is the whole
+   array again, and no amount of fuel is enough *)
+Example qsort_const_diverged_old : forall fuel wfuel, small_qsort false 5 fuel wfuel [7; 7; 7; 7; 7]%Z = None.
 Proof.
   intros fuel wfuel. unfold small_qsort.
   change (N.of_nat (length [7; 7; 7; 7; 7]%Z)) with 5.
-  rewrite (qsort_inner_stuck Z Z.leb 0%Z 5 id_sort (qutil_params 16 4) wfuel (of_list Z [7; 7; 7; 7; 7]%Z) 0 5 0 4).
+  rewrite (qsort_old_stuck Z Z.leb 0%Z 5 id_sort (qutil_params 16 4) wfuel (of_list Z [7; 7; 7; 7; 7]%Z) 0 5).
   - reflexivity.
-  - vm_compute. reflexivity.
-  - vm_compute. reflexivity.
+  - reflexivity.
   - destruct wfuel; vm_compute; reflexivity.
-  - vm_compute. reflexivity.
   - reflexivity.
 Qed.
 
-(* the same code returns when the elements differ (non-vacuity of the permutation theorem: swaps happen); the
+(* CURRENT rule: the same input returns (all five pivots are moved "to the end", the left part is empty) *)
+Example qsort_const_returns : small_qsort true 5 6 1 [7; 7; 7; 7; 7]%Z = Some [7; 7; 7; 7; 7]%Z.
+Proof. vm_compute. reflexivity. Qed.
+Example qsort_mostly_max_returns : small_qsort true 6 7 1 [9; 5; 9; 9; 9; 9]%Z = Some [5; 9; 9; 9; 9; 9]%Z.
+Proof. vm_compute. reflexivity. Qed.
+
+(* the code returns when the elements differ (non-vacuity of the permutation theorem: swaps happen); the
    segments below the cutoff are left to the base sort, which is the identity in this instance *)
-Example small_qsort_runs : small_qsort 7 10 10 [5; 3; 9; 1; 7; 2; 8]%Z = Some [1; 3; 2; 5; 7; 9; 8]%Z.
+Example small_qsort_runs : small_qsort true 7 10 10 [5; 3; 9; 1; 7; 2; 8]%Z = Some [1; 3; 2; 5; 7; 9; 8]%Z.
 Proof. vm_compute. reflexivity. Qed.
